@@ -115,6 +115,9 @@ TARGETS = [
     # cond=-1 = the LAST `if` of way() (the throw); the `if (!node_ref.location())` inside the range-for goes through the
     # non-const NodeRef::location(), whose generated name would clash with the const overload: not extracted
     dict(fn=NLFW + '::way', cond=-1, name='nlfw_way_cond_throw'),
+    # what way() stores into m_last_id after sorting (seed C12-7) and what node() stores into it
+    dict(fn=NLFW + '::way', rhs='m_last_id', name='nlfw_way_last_id_after_sort'),
+    dict(fn=NLFW + '::node', rhs='m_last_id', name='nlfw_node_last_id'),
     dict(fn=NLFW + '::ignore_errors'),
     dict(fn='osmium::ItemStash::should_gc'),
     dict(fn='osmium::detail::parse_timestamp', sig='(const char **)', local='leap_year', name='parse_timestamp_leap_year'),
